@@ -262,11 +262,13 @@ check(
            unit("codec", "^TestC08MessageSegmentation", checks=150, timeout=900),
            unit("codec", "^TestC08PrimitiveSegmentation", checks=1500, timeout=900),
            unit("codec", "^TestEveryKindC08", checks=8, timeout=900),
+           unit("codec", "^TestC08LongValuesReusedTargets", checks=150, timeout=900),
            unit("client", "^TestC08ClientSegmentation", checks=6000, timeout=900)],
     thorough=[unit("codec", "^TestC08ReaderSegmentation", checks=6000, timeout=8000, shards=8),
               unit("codec", "^TestC08MessageSegmentation", checks=1500, timeout=8000, shards=2),
               unit("codec", "^TestC08PrimitiveSegmentation", checks=40000, timeout=8000, shards=4),
               unit("codec", "^TestEveryKindC08", checks=400, timeout=8000, shards=2),
+              unit("codec", "^TestC08LongValuesReusedTargets", checks=3000, timeout=8000, shards=4),
               unit("client", "^TestC08ClientSegmentation", checks=30000, timeout=8000, shards=6)],
     manifest=dict(
         text="Metamorphic relation: the decoded values, error and bytes consumed under any segmentation equal those of the "
